@@ -98,7 +98,7 @@ Lemma loop_inv : forall n it l, Inv l -> Inv (loop fast explicit Orc C n it l).
 Proof.
   induction n; intros it l H; simpl; [exact H|].
   assert (H1 : Inv (finish_iteration Orc C (iteration fast explicit Orc C it l))) by (apply finish_inv, iteration_inv, H).
-  destruct (use_callback C && cb_stop Orc it); [apply emit_inv; [apply iteration_inv, H | exact I]|].
+  destruct (use_callback C && cb_stop Orc it); [apply emit_inv; [exact H1 | exact I]|].
   destruct (stop Orc it); [apply emit_inv; simpl; auto | apply IHn; exact H1].
 Qed.
 
